@@ -757,7 +757,10 @@ def judge(case, obs):
         if beh in ("notCallable", "nonIterable", "hasNonVar"):
             if res[0] != "err" or res[1] != "TypeError":
                 got = res[1] if res[0] == "err" else "no exception"
-                bad.append((f"{ctor}:bad-callback:{beh}:{got}", f"{beh} callback: expected TypeError at the call, got {got}"))
+                bk = case["cbs"][first_bad].get("bad", "")
+                lab = beh + (":nested-vars" if bk in SEQ_OF_VARS else "")
+                bad.append((f"{ctor}:bad-callback:{lab}:{got}",
+                            f"{beh} callback ({bk or 'non-Var element'}): expected TypeError at the call, got {got}"))
             if beh == "notCallable" and obs["counts_ctor"].get(first_bad, 0) != 0:
                 bad.append((f"{ctor}:bad-callback:notCallable:called", "non-callable was called?"))
     # -- never again
